@@ -220,7 +220,9 @@ def escapeQuotes(text: str) -> str:
 
 
 def strToIntOrFloat(inputStr: str) -> float:
-    return float(inputStr) if "." in inputStr else int(inputStr)
+    if "." in inputStr or "e" in inputStr.lower():
+        return float(inputStr)
+    return int(inputStr)
 
 
 def getValueAtTime(
